@@ -41,6 +41,8 @@ CLAIMED["C15"]=("per-identifier callback never stops the iteration and ticks at 
   "dataflow-shape, ordering and comparison-class rules over type-checked AST; store effect summaries and call graph for the writer/caller sets", "4/C15")
 CLAIMED["C08"]=("order-insensitivity of every range-over-map loop reachable from block execution / transactions / ante / precompiles / hooks / InitGenesis (commutative accumulations, idempotent assignments, running extrema, writes addressed by the iteration variables, map-ordered slices followed interprocedurally to a total-order sort or order-insensitive consumers); absence of wall-clock, randomness, environment and goroutine use; the set of package-level variables written; no shared mutable object between the CheckTx copy and the deliver-state oracle aggregator",
   "loop-carried-dependence classification of map iterations over type-checked AST with interprocedural slice-fate tracking; call-graph reachability for forbidden sources and global writes; aliasing rules on the copy constructor", "4/C08")
+CLAIMED["C14"]=("replay order and arguments in recacheAggregatorContext (params in force, prepare previous block, the block's logged messages, seal at the replayed height, prepare the current block on every path); restore-before-use of process-local values; restart branch resets the caches before and marks them clean after the whole recache; logging completeness of submissions, validator changes (flag on every mutating arm), params updates and finalisation; unconditional commit each EndBlock; pruning keeps store and index in agreement and the params in force; singletons only through lazy accessors",
+  "ordering / must-pass-through and argument-identity rules over type-checked AST; restore-before-use on the audited global set; sibling agreement between store and index pruning", "4/C14")
 NA={}
 def main():
     checks=[]
